@@ -43,8 +43,11 @@ class C06(Prop):
             aad = lenbytes(r, 0.02); pl = lenbytes(r, 0.02)
             late = r.random() < 0.25          # setter after create: side condition of the property does not hold
             pre = []
-            if r.random() < 0.8: pre.append('(protected %s)' % hdr())
-            if r.random() < 0.5: pre.append('(unprotected %s)' % hdr())
+            if r.random() < 0.12:
+                hh = hdr(); pre += ['(protected %s)' % hh, '(unprotected %s)' % hh]      # both buckets alike (informed round 10: an entry present in both dropped from the protected one when serialising)
+            else:
+                if r.random() < 0.8: pre.append('(protected %s)' % hdr())
+                if r.random() < 0.5: pre.append('(unprotected %s)' % hdr())
             detached = fam in ('CoseSign1Builder', 'CoseSignBuilder') and r.random() < 0.4
             tagged = 'T' if (fam != 'CoseRecipientBuilder' and r.random() < 0.4) else 'F'
             paad = aad if r.random() < 0.8 else r.choice([aad + b'\x00', refcbor.head(2, len(aad)) + aad, aad[1:] if aad[:1] and aad[0] == 0x40 + len(aad) - 1 else aad + b'\x01'])
@@ -290,6 +293,8 @@ class C08(Prop):
         r = random.Random(seed); g = T(seed, valid=0.9); ops = []
         def wrap(v):
             c = r.random(); b = g.venc(v) if r.random() < 0.5 else refcbor.encode(v)
+            if c >= 0.93:
+                kk = r.choice([1, 15, 16, 16]); return mk('dec Header b' + nestG(kk, r.choice(NEST_PATTERNS), inner=b).hex(), k='deep', n=kk)      # the same rules at every nesting level
             if c < 0.5: return mk('dec Header b' + b.hex(), k='standalone')
             if c < 0.6: return mk('fromv Header ' + vsx(v), k='value')
             if c < 0.8: return mk('dec CoseSign1 b' + (b'\x84\x40' + b + b'\xf6\x40').hex(), k='unprotected')
